@@ -11,7 +11,7 @@ import ParsecVerif.Model.PtgStartup
     prog <serialisation>          -> ok <nclasses>          (docs/notes/PTG.md; resets everything)
     cfg <tiles> <iter> <chunk>    -> ok                     (collection size, task_startup_iter, task_startup_chunk)
     graph                         -> <nodes> <edges>
-    valid                         -> wf <b> racefree <b> asyncsafe <b> singlesrc <b>
+    valid                         -> wf <b> racefree <b> asyncsafe <b> singlesrc <b> named <b>
     again <k> <cls> <locals..>    -> ok | bad:not-in-space  (the body of that instance answers AGAIN k times; default 0)
     go                            -> ok                     (starts the acceptor with the AGAIN answers given so far)
     B <cls> <locals..>            -> ok | bad:<reason>      (a body begins)
@@ -127,7 +127,7 @@ def step (s : RtSt) : List String → RtSt × String
           | some cl => cl.flows.all fun f => f.access == .ctl ||
               ((f.ins.filterMap (activeTarget p.globals x.2.env)).filter Target.isTask).length ≤ 1
           | none => false
-        (s, s!"wf {b (WellFormed p)} racefree {b (raceFreeB s.g s.ds)} asyncsafe {b (asyncSafeB s.g s.fls)} singlesrc {b single}")
+        (s, s!"wf {b (WellFormed p)} racefree {b (raceFreeB s.g s.ds)} asyncsafe {b (asyncSafeB s.g s.fls)} singlesrc {b single} named {b (namedOKB p s.cfg bodyH)}")
       | "again" :: k :: rest =>
         match nat? k, ints? rest with
         | some k, some (c :: env) =>
